@@ -16,6 +16,6 @@ def run(tier, seed):
     rep.explanation = ("Mixed. Deductive: LANG - no URL accepted by validateLink (its own control structure and regex literals, translated with Python's regex parser, after strip+lower) lies in the "
                        "dangerous-scheme language (z3 regex solver); TYPESTATE - at every href/src store site of the six producers, and at the writer of env references, the value is '' or normalizeLink's result tested "
                        "by validateLink on that path, or read from env references. Bounded: URL contract monitored on all tokens over the scheme universe and the line/inline universes.")
-    rep.trusted_base = STD_TRUST
-    rep.assumptions = ["mdurl.encode returns only URL-safe ASCII (assumed contract on the dependency; its output alphabet is checked on the bounded inputs)"]
+    rep.trusted_base += STD_TRUST
+    rep.assumptions += ["mdurl.encode returns only URL-safe ASCII (assumed contract on the dependency; its output alphabet is checked on the bounded inputs)"]
     return rep
